@@ -7,15 +7,37 @@ import (
 	"fmt"
 	"math"
 	"os"
+	"sync"
 
 	wt "github.com/hnakamur/whispertool"
 )
 
+// wtArchives returns the archive list of a layout. Like a schema that is parsed once and used for many
+// metrics, ONE list value per distinct archive list is handed out for the whole process: a library that
+// keeps per-file state in the caller's list shows up as soon as two files share it.
+var (
+	wtArchivesMu    sync.Mutex
+	wtArchivesCache = map[string]wt.ArchiveInfoList{}
+)
+
 func wtArchives(l Layout) wt.ArchiveInfoList {
+	key := ""
+	for _, a := range l.Archives {
+		key += fmt.Sprintf("%d:%d,", a.Step, a.Points)
+	}
+	wtArchivesMu.Lock()
+	defer wtArchivesMu.Unlock()
+	if al, ok := wtArchivesCache[key]; ok {
+		return al
+	}
 	var out wt.ArchiveInfoList
 	for _, a := range l.Archives {
 		out = append(out, wt.NewArchiveInfo(wt.Duration(a.Step), uint32(a.Points)))
 	}
+	if len(wtArchivesCache) > 5000 {
+		wtArchivesCache = map[string]wt.ArchiveInfoList{}
+	}
+	wtArchivesCache[key] = out
 	return out
 }
 
